@@ -23,6 +23,8 @@ where
 {
     let mut result = vec![];
     let mut rng = thread_rng();
+    #[cfg(feature = "verif-hooks")]
+    let mut rng = crate::verif_hooks::shadow(rng);
     let poly = poly_mod(poly, &p);
     let two = Int::one() + Int::one();
     if p == two {
